@@ -306,7 +306,21 @@ where
                 rep.violation(&rule, format!("C17:{}:{}", graph, rule), format!("drop order {:?}: {}", order, msg), w);
             }
             Ok(Ok(())) => {
-                let res = d.residue();
+                let mut res = d.residue();
+                // an empty per-node directory is its own class (and must not hide what the reuse check finds)
+                if !res.is_empty() && res.iter().all(|f| f.starts_with("nodes/") && f.ends_with('/')) {
+                    let node_first = order.iter().position(|o| *o == "node").unwrap_or(usize::MAX);
+                    rep.violation(
+                        "residue_empty_node_directory",
+                        format!("C17:{}:residue_empty_node_directory", graph),
+                        format!("drop order {:?} (node handle dropped at position {} of {}) left the empty directory {:?}", order, node_first + 1, order.len(), &res[..res.len().min(3)]),
+                        w.clone(),
+                    );
+                    for f in &res {
+                        let _ = std::fs::remove_dir(format!("{}/{}", d.root, f));
+                    }
+                    res = d.residue();
+                }
                 if !res.is_empty() {
                     rep.violation("residue", format!("C17:{}:residue", graph), format!("drop order {:?} left {:?}", order, &res[..res.len().min(5)]), w);
                 } else if let Err(x) = reuse::<S>(&d.config, name, &graph) {
